@@ -124,7 +124,7 @@ var verifDetail string
 // symQuiesce lets every other goroutine run until none can make progress and returns how
 // many are still blocked. Natively it can only wait a little; the count is then unknown (0).
 func symQuiesce() int {
-	time.Sleep(80 * time.Millisecond) // several yields long
+	time.Sleep(150 * time.Millisecond) // several yields long
 	return 0
 }
 
